@@ -121,6 +121,12 @@ for n, p in enumerate(req["programs"]):
             pkg = fn.compile_function() if hasattr(fn, "compile_function") else fn.compile()
             b = pkg.to_bytes()
             rec.update(outcome="ok", text=hashlib.sha256(b).hexdigest(), nbytes=len(b))
+            try:  # names of the function definitions / declarations, for the replay's benefit
+                from hugr import ops
+                h = pkg.modules[0]
+                rec["funcs"] = [h[n].op.f_name for n in h if isinstance(h[n].op, (ops.FuncDefn, ops.FuncDecl))]
+            except Exception as e:  # noqa: BLE001
+                rec["funcs"] = f"unavailable: {type(e).__name__}"
     except GuppyError as e:
         rec.update(outcome="error", text=render(e).replace(path, "<prog>").replace(os.path.basename(path), "<prog>"))
     except BaseException as e:  # noqa: BLE001
